@@ -9,6 +9,9 @@ namespace Memchr.Pair
 
 open Memchr
 
+/-- Loop invariant of the scan with a stateful ranker: `index1 ≠ index2`, both `< i`.  It does
+not mention any rank value, so it holds whatever the ranker answers (and however its answers
+change from call to call). -/
 theorem scanLoopS_correct {σ : Type} (needle : Slice) (rank : σ → UInt8 → UInt8 × σ)
     (stop i : Nat) (rare1 index1 rare2 index2 : UInt8) (s : σ) (c : Ctr)
     (hstop : stop ≤ 255) (hi : i ≤ stop)
@@ -18,5 +21,165 @@ theorem scanLoopS_correct {σ : Type} (needle : Slice) (rank : σ → UInt8 → 
       j1 ≠ j2 ∧ j1.toNat < stop ∧ j2.toNat < stop ∧
       c'.steps = c.steps + (stop - i) ∧ c'.loads = c.loads := by
   fun_induction scanLoopS needle rank stop i rare1 index1 rare2 index2 s generalizing c with
-  | case1 => trace_state; sorry
-  | case2 => sorry
+  | case1 i rare1 index1 rare2 index2 s hlt ihA ihB ihC =>
+    have hi255 : i ≤ 255 := by omega
+    have hto := toNat_ofNat_le hi255
+    have hsteps : ∀ c' : Ctr, c'.steps = c.steps + 1 + (stop - (i + 1)) →
+        c'.steps = c.steps + (stop - i) := fun c' h => by omega
+    simp only [bind, M.bind, tick, u8TryFrom_ok _ hi255, pure]
+    rcases rank s (needle.getD i) with ⟨rb, s1⟩
+    rcases rank s1 rare1 with ⟨rr1, s2⟩
+    simp only []
+    by_cases hA : rb < rr1
+    · obtain ⟨j1, j2, s', c', hrun, a1, a2, a3, a4, a5⟩ :=
+        ihA s2 (UInt8.ofNat i) { c with steps := c.steps + 1 } (by omega)
+          (ne_of_toNat_lt (by rw [hto]; exact h1)).symm (by rw [hto]; omega) (by omega)
+      refine ⟨j1, j2, s', c', ?_, a1, a2, a3, hsteps c' a4, a5⟩
+      simp only [hA, if_true]
+      exact hrun
+    · by_cases hN : (needle.getD i != rare1) = true
+      · simp only [hA, if_false, hN, if_true]
+        rcases rank s2 (needle.getD i) with ⟨rb', s3⟩
+        rcases rank s3 rare2 with ⟨rr2, s4⟩
+        simp only []
+        by_cases hB : rb' < rr2
+        · obtain ⟨j1, j2, s', c', hrun, a1, a2, a3, a4, a5⟩ :=
+            ihB s4 (UInt8.ofNat i) { c with steps := c.steps + 1 } (by omega)
+              (ne_of_toNat_lt (by rw [hto]; exact h1)) (by omega) (by rw [hto]; omega)
+          refine ⟨j1, j2, s', c', ?_, a1, a2, a3, hsteps c' a4, a5⟩
+          simp only [hB, if_true]
+          exact hrun
+        · obtain ⟨j1, j2, s', c', hrun, a1, a2, a3, a4, a5⟩ :=
+            ihC s4 { c with steps := c.steps + 1 } (by omega) hne (by omega) (by omega)
+          refine ⟨j1, j2, s', c', ?_, a1, a2, a3, hsteps c' a4, a5⟩
+          simp only [hB, if_false]
+          exact hrun
+      · obtain ⟨j1, j2, s', c', hrun, a1, a2, a3, a4, a5⟩ :=
+          ihC s2 { c with steps := c.steps + 1 } (by omega) hne (by omega) (by omega)
+        refine ⟨j1, j2, s', c', ?_, a1, a2, a3, hsteps c' a4, a5⟩
+        simp only [hA, if_false, hN]
+        exact hrun
+  | case2 i rare1 index1 rare2 index2 s hge =>
+    exact ⟨index1, index2, s, c, rfl, hne, by omega, by omega, by omega, rfl⟩
+
+/-- **C19** `Pair::with_ranker(needle, ranker)` for every needle and every ranker WITH INTERIOR
+STATE (any state type, any transition function, any initial state): no fault, `None` exactly
+when `needle.len() < 2`, otherwise two distinct offsets inside the needle, both `<= 254`; at
+most `min(needle.len(), 255)` steps and no raw load. -/
+theorem withRankerS_correct {σ : Type} (needle : Slice) (rank : σ → UInt8 → UInt8 × σ) (s0 : σ)
+    (c : Ctr) :
+    ∃ r s' c', withRankerS needle rank s0 c = .ok (r, s') c' ∧
+      (r = none ↔ needle.len < 2) ∧
+      (∀ p, r = some p → p.ValidFor needle ∧ p.index1.toNat ≤ 254 ∧ p.index2.toNat ≤ 254) ∧
+      c'.steps ≤ c.steps + min needle.len 255 ∧ c'.loads = c.loads := by
+  unfold withRankerS
+  by_cases hlen : needle.len ≤ 1
+  · refine ⟨none, s0, c, by simp [hlen], by simp; omega, by simp, by omega, rfl⟩
+  · have h0 : 0 < needle.len := by omega
+    have h1 : 1 < needle.len := by omega
+    have hmax := pairScanMax_le
+    have hmax2 := pairScanMax_ge
+    have fin : ∀ (r1 i1 r2 i2 : UInt8) (s : σ), i1 ≠ i2 → i1.toNat < 2 → i2.toNat < 2 →
+        ∃ r s' c', (do
+            let (index1, index2, s) ←
+              scanLoopS needle rank (min needle.len Generated.pairScanMax)
+                Generated.pairScanSkip r1 i1 r2 i2 s
+            assert "with_ranker: assert_ne!(index1, index2)" (index1 != index2)
+            pure (some (Pair.mk index1 index2), s) : M (Option Pair × σ)) c = .ok (r, s') c' ∧
+          (r = none ↔ needle.len < 2) ∧
+          (∀ p, r = some p → p.ValidFor needle ∧ p.index1.toNat ≤ 254 ∧ p.index2.toNat ≤ 254) ∧
+          c'.steps ≤ c.steps + min needle.len 255 ∧ c'.loads = c.loads := by
+      intro r1 i1 r2 i2 s hne hi1 hi2
+      obtain ⟨j1, j2, s', c', hrun, a1, a2, a3, a4, a5⟩ :=
+        scanLoopS_correct needle rank (min needle.len Generated.pairScanMax) 2 r1 i1 r2 i2 s c
+          (by omega) (by omega) hne hi1 hi2
+      rw [← pairScanSkip_eq] at hrun
+      have hbne : (j1 != j2) = true := bne_iff_ne.mpr a1
+      refine ⟨some ⟨j1, j2⟩, s', c', ?_, by simp; omega, ?_, by omega, a5⟩
+      · simp only [bind, M.bind, hrun, hbne, assert_true, pure, M.pure]
+      · intro p hp
+        cases hp
+        exact ⟨⟨a1, by show j1.toNat < _; omega, by show j2.toNat < _; omega⟩,
+          by show j1.toNat ≤ _; omega, by show j2.toNat ≤ _; omega⟩
+    simp only [hlen, if_false, Slice.get, h0, h1, if_true, bind, M.bind, pure, M.pure]
+    rcases rank s0 (needle.getD 1) with ⟨q2, s1⟩
+    rcases rank s1 (needle.getD 0) with ⟨q1, s2⟩
+    simp only []
+    by_cases hs : q2 < q1
+    · simp only [hs, if_true]
+      exact fin _ 1 _ 0 s2 (by decide) (by decide) (by decide)
+    · simp only [hs, if_false]
+      exact fin _ 0 _ 1 s2 (by decide) (by decide) (by decide)
+
+/-! ### a pure ranker is the special case `σ = Unit` -/
+
+/-- forget the (trivial) ranker state of a run -/
+def withUnit {α : Type} : Res α → Res (α × Unit)
+  | .ok a c => .ok (a, ()) c
+  | .fault e => .fault e
+
+theorem scanLoopS_pure (needle : Slice) (f : UInt8 → UInt8) (stop i : Nat)
+    (rare1 index1 rare2 index2 : UInt8) (c : Ctr) :
+    scanLoopS needle (fun _ b => (f b, ())) stop i rare1 index1 rare2 index2 () c =
+      (match scanLoop needle f stop i rare1 index1 rare2 index2 c with
+        | .ok (j1, j2) c' => .ok (j1, j2, ()) c'
+        | .fault e => .fault e) := by
+  fun_induction scanLoop needle f stop i rare1 index1 rare2 index2 generalizing c with
+  | case1 i rare1 index1 rare2 index2 hlt ihA ihB ihC =>
+    rw [scanLoopS]
+    simp only [hlt, dite_true, bind, M.bind, tick, pure]
+    by_cases hA : f (needle.getD i) < f rare1
+    · simp only [hA, if_true]
+      cases hu : u8TryFrom "with_ranker: index1 = u8::try_from(i).unwrap()" i
+          { c with steps := c.steps + 1 } with
+      | ok i8 c1 => simp only [M.bind, hu]; exact ihA i8 c1
+      | fault e => simp only [M.bind, hu]
+    · by_cases hN : (needle.getD i != rare1) = true
+      · by_cases hB : f (needle.getD i) < f rare2
+        · simp only [hA, if_false, hN, hB, if_true, Bool.true_and, decide_true]
+          cases hu : u8TryFrom "with_ranker: index2 = u8::try_from(i).unwrap()" i
+              { c with steps := c.steps + 1 } with
+          | ok i8 c1 => simp only [M.bind, hu]; exact ihB i8 c1
+          | fault e => simp only [M.bind, hu]
+        · simp only [hA, if_false, hN, hB, if_true, Bool.true_and, decide_false]
+          exact ihC _
+      · simp only [hA, if_false, hN, Bool.false_and]
+        exact ihC _
+  | case2 i rare1 index1 rare2 index2 hge =>
+    rw [scanLoopS]
+    simp only [hge, dite_false]
+    rfl
+
+/-- With `σ := Unit` and a ranker that ignores its state the stateful model IS the pure model
+`withRanker`: same fault, or the same answer with the same counter. -/
+theorem withRankerS_pure (needle : Slice) (f : UInt8 → UInt8) (c : Ctr) :
+    withRankerS needle (fun _ b => (f b, ())) () c = withUnit (withRanker needle f c) := by
+  unfold withRankerS withRanker
+  by_cases hlen : needle.len ≤ 1
+  · simp only [hlen, if_true]; rfl
+  · have h0 : 0 < needle.len := by omega
+    have h1 : 1 < needle.len := by omega
+    simp only [hlen, if_false, Slice.get, h0, h1, if_true, bind, M.bind, pure, M.pure]
+    rw [scanLoopS_pure]
+    cases scanLoop needle f (min needle.len Generated.pairScanMax) Generated.pairScanSkip
+        (if f (needle.getD 1) < f (needle.getD 0) then needle.getD 1 else needle.getD 0)
+        (if f (needle.getD 1) < f (needle.getD 0) then 1 else 0)
+        (if f (needle.getD 1) < f (needle.getD 0) then needle.getD 0 else needle.getD 1)
+        (if f (needle.getD 1) < f (needle.getD 0) then 0 else 1) c with
+    | fault e => rfl
+    | ok a c1 =>
+      obtain ⟨j1, j2⟩ := a
+      simp only [withUnit]
+      by_cases hj : (j1 != j2) = true
+      · simp only [hj, assert_true]; rfl
+      · have hj' : (j1 != j2) = false := by simpa using hj
+        simp only [hj', assert_false]; rfl
+
+/-- the same statement through `Functor.map` -/
+theorem withRankerS_pure_map (needle : Slice) (f : UInt8 → UInt8) (c : Ctr) :
+    withRankerS needle (fun _ b => (f b, ())) () c =
+      ((fun r => (r, ())) <$> withRanker needle f) c := by
+  rw [withRankerS_pure, M.map_run]
+  cases withRanker needle f c <;> rfl
+
+end Memchr.Pair
